@@ -640,7 +640,7 @@ def parse_dispatch(ctx, args, callee):
             raise Unmodelled('parse::<f64> on z3 string')
         def pf(a):
             try:
-                if not re.fullmatch(r'[+-]?(\d+\.?\d*([eE][+-]?\d+)?|\.\d+([eE][+-]?\d+)?|inf|infinity|nan)', a, re.I):
+                if not re.fullmatch(r'[+-]?([0-9]+\.?[0-9]*([eE][+-]?[0-9]+)?|\.[0-9]+([eE][+-]?[0-9]+)?|inf|infinity|nan)', a, re.I):
                     return None
                 return float(a)
             except ValueError:
@@ -1861,9 +1861,53 @@ def m_iter_count(ctx, args, callee):
     return BitVecVal(len(drain(ctx, _it(ctx, args[0]))), 64)
 
 
+class ClassChars(Iter):
+    """chars() of a text with a run of unknown decimal digits in it: concrete characters and one 'some digits' element. Only
+    predicates that are uniform on the ten digits can be folded over it (any / all); anything else is UNMODELLED"""
+    def __init__(self, parts):
+        self.parts = parts          # list of characters (str) and the marker None = one or more decimal digits
+
+    def next(self, ctx):
+        raise Unmodelled('stepping through the characters of a symbolic numeral')
+
+    def fold(self, ctx, pred):
+        """-> list of python booleans, one per part (the path forks as the predicate demands)"""
+        out = []
+        for ch in self.parts:
+            if ch is None:
+                rs = [bool(ctx.decide(pred(BitVecVal(ord(d), 32)))) for d in '0123456789']
+                if len(set(rs)) != 1:
+                    raise Unmodelled('a predicate that tells decimal digits apart, on a symbolic numeral')
+                out.append(rs[0])
+            else:
+                out.append(bool(ctx.decide(pred(BitVecVal(ord(ch), 32)))))
+        return out
+
+
+class TableChars(Iter):
+    """chars() of a table string (a symbolic index into concrete texts): foldable by any / all, entry by entry"""
+    def __init__(self, st):
+        self.st = st
+
+    def next(self, ctx):
+        raise Unmodelled('stepping through the characters of a table string')
+
+    def fold(self, ctx, pred, mode):
+        hits = []
+        for i, t in self.st.tab.items():
+            rs = [bool(ctx.decide(pred(BitVecVal(ord(c), 32)))) for c in t]
+            if (all(rs) if mode == 'all' else any(rs)):
+                hits.append(self.st.var == i)
+        return Or(hits) if hits else BoolVal(False)
+
+
 @model(r'^<.* as Iterator>::any$')
 def m_iter_any(ctx, args, callee):
     it = _it(ctx, args[0])
+    if isinstance(it, TableChars):
+        return it.fold(ctx, lambda c: ctx.call_closure(args[1], [c]), 'any')
+    if isinstance(it, ClassChars):
+        return BoolVal(any(it.fold(ctx, lambda c: ctx.call_closure(args[1], [c]))))
     while True:
         x = it.next(ctx)
         if x is None:
@@ -1875,6 +1919,10 @@ def m_iter_any(ctx, args, callee):
 @model(r'^<.* as Iterator>::all$')
 def m_iter_all(ctx, args, callee):
     it = _it(ctx, args[0])
+    if isinstance(it, TableChars):
+        return it.fold(ctx, lambda c: ctx.call_closure(args[1], [c]), 'all')
+    if isinstance(it, ClassChars):
+        return BoolVal(all(it.fold(ctx, lambda c: ctx.call_closure(args[1], [c]))))
     while True:
         x = it.next(ctx)
         if x is None:
@@ -2489,12 +2537,32 @@ def m_float_minmax(ctx, args, callee):
     return If(z3.fpGT(a, b), a, If(z3.fpIsNaN(a), b, If(z3.fpIsNaN(b), a, If(z3.fpGT(b, a), b, a))))
 
 
+@model(r'^(core::)?str::<impl str>::split_whitespace$')
+def m_split_whitespace(ctx, args, callee):
+    s_ = as_str(ctx, args[0])
+    if s_.s is None or isinstance(s_, SpecialStr):
+        raise Unmodelled('split_whitespace of symbolic string')
+    return ListIter([Str(w) for w in s_.s.split()])
+
+
+@model(r'^(core::)?char::methods::<impl char>::to_(upper|lower)case$|^char::to_(upper|lower)case$')
+def m_char_case(ctx, args, callee):
+    """char::to_uppercase / to_lowercase: an iterator over the (one to three) characters of the case mapping"""
+    c = conc(args[0])
+    if c is None:
+        raise Unmodelled('case mapping of a symbolic char')
+    t = chr(c).upper() if 'upper' in callee else chr(c).lower()
+    return ListIter([BitVecVal(ord(x), 32) for x in t])
+
+
 # --- chars
 @model(r'^(core::)?str::<impl str>::chars$')
 def m_chars(ctx, args, callee):
     s_ = as_str(ctx, args[0])
     if isinstance(s_, SpecialStr):
         return s_.sop(ctx, 'chars', args, callee)
+    if s_.s is None and s_.is_table:
+        return TableChars(s_)
     if s_.s is None:
         raise Unmodelled('chars() of symbolic string')
     it = ListIter([BitVecVal(ord(c), 32) for c in s_.s])
